@@ -41,7 +41,8 @@ add("C02", "E1",
     "The 5355-kernel family named by the property is enumerated completely in both tiers and the "
     "bottleneck after the CLI's two balancing passes is compared with the exact optimum "
     "max_S confined(S)/|S|; clauses (1) never worse than uniform and (2) never below the optimum by "
-    "more than one step are additionally decided for all kernels <=2 of the C01 families.",
+    "more than one step are additionally decided for all kernels <=2 of the C01 families and for "
+    "all kernels <=2 over <=40 real instructions per shipped model (quick 5 models, thorough all).",
     "Trusted: exact optimum by Hall/max-flow duality (mc/ref/ports.py). The property's 'random "
     "exploration' clause is replaced by enumerated families (sampling is a different technique).",
     "DESIGN.md §4 C02")
@@ -117,25 +118,27 @@ add("C07", "E1",
     "every pair of pairs for arity 2 over all operand kinds and wildcards of both ISAs through "
     "MachineModel.get_instruction; duplicates, shadowing, alias lists, operand counts, mnemonic case "
     "and AT&T / '.cond' suffix fall-backs through ArchSemantics. (b) every entry of shipped model "
-    "files and both ISA databases (quick: zen1, n1, tx2, isa/*; thorough: all): the instruction "
+    "files and both ISA databases (all files in both tiers): the instruction "
     "synthesised from the entry's own pattern must resolve to the first entry in file order that the "
-    "reference accepts, and ~8 near-miss instructions per operand must not resolve to that entry.",
-    "Trusted: mc/ref/match.py (kinds, match relation, synthesiser). Kinds the statement does not "
-    "define (mask/segment registers, shapeless vector registers, typo patterns) are excluded and "
-    "counted.",
+    "reference accepts, a pattern field outside its documented domain (entry unreachable) is "
+    "reported, and ~8 near-miss instructions per operand must not resolve to that entry (quick: "
+    "zen1, n1, tx2, isa/*; thorough: all).",
+    "Trusted: mc/ref/match.py (kinds, match relation, field domains, synthesiser). Kinds the "
+    "statement does not define (mask/segment registers, shapeless vector registers) are excluded "
+    "and counted.",
     "DESIGN.md §4 C07")
 
 add("C15", "E1",
     "complete enumeration of all shipped entries (well-formedness + costing of one synthesised instruction each)",
     "Every entry of every non-empty shipped model file and of both ISA databases is read as plain "
     "YAML and checked field by field (micro-op lists and alternatives, ports within the port list, "
-    "throughput/latency, load/store tables and defaults); one instruction synthesised from each "
+    "throughput/latency, operand-pattern and table-row fields within their documented domains, "
+    "load/store tables and defaults); one instruction synthesised from each "
     "entry's own pattern is costed through add_semantics, both balancing passes and KernelDG "
     "(quick: 6 small models + ISA databases; thorough: all ~12.5k entries) and must not raise; "
-    "--db-check counts are compared with counts from the plain file. The space is finite and "
-    "covered completely in the thorough tier.",
-    "Trusted: plain-YAML reading by ruamel (safe loader), synthesiser mc/ref/match.py. The 22 snb "
-    "'DIV' port entries are a listed known finding.",
+    "--db-check counts of every model are compared with counts from the plain file. The space is "
+    "finite and covered completely in the thorough tier.",
+    "Trusted: plain-YAML reading by ruamel (safe loader), synthesiser mc/ref/match.py.",
     "DESIGN.md §4 C15")
 
 add("C08", "E1",
